@@ -34,7 +34,7 @@ def run(ctx, report):
     X, I = arch_interp(ctx)
     arch = X.arch
     E = X.env
-    L = LifterModel(ctx, opmodes=('u32', 'u16'), rich=thorough)
+    L = LifterModel(ctx, opmodes=('u32', 'u16'), rich=True)
     to_att = I.g.get('mnemo_to_att')
     from_att = I.g.get('mnemo_from_att')
     if to_att is None or from_att is None:
@@ -44,11 +44,12 @@ def run(ctx, report):
         'every printed mnemonic x operand-dictionary form the decoder can produce (forms from the statically expanded opcode table, mandatory-prefix '
         'suffix scheme and special renames applied). D1/D1b: mnemo_to_att reaches a return for every form (no final "Mnemonic unknown", no unbound size). '
         'D2: mnemo_from_att applied to the AT&T mnemonic returns the original mnemonic (unique decodability of name+suffix under the dispatch order). '
-        'D3: every suffix->size table is injective. D5: the AT&T operand grammar, which reads back what the AT&T printer wrote, keeps both coefficients when base and index are the same register.')
+        'D6: every MMX/SSE form keeps its Intel mnemonic in AT&T syntax (GNU as convention), so a homonymous string instruction (movsd/cmpsd) cannot capture it. D3: every suffix->size table is injective. D5: the AT&T operand grammar, which reads back what the AT&T printer wrote, keeps both coefficients when base and index are the same register.')
     report.not_decided = ('operand order reversal and memory-operand layout for concrete operands, the fsub/fdiv reversal on parsed operands, acceptance by GNU as '
                           '(no assembler in the sandbox; an external tool\'s grammar is not a property of this source).')
     R1 = report.rule('C09.D1', 'every decodable mnemonic/operand-size form has an AT&T mnemonic', floor=700)
     R2 = report.rule('C09.D2', 'the AT&T mnemonic maps back to the same instruction', floor=500)
+    R6 = report.rule('C09.D6', 'MMX/SSE instructions keep their mnemonic in AT&T syntax', floor=500)
     seen = set()
     n_invalid = 0
     for inst in L.instances:
@@ -82,6 +83,13 @@ def run(ctx, report):
                          % (res, name, sig), where(arch, to_att.node), witness='row %s' % inst.row.key())
             continue
         R1.ok(iid, sample='%s (%s) -> %s' % (name, sig, res))
+        if inst.modifs.get(E['mmx']):
+            # GNU as uses the Intel mnemonics for MMX/SSE instructions (only the integer<->float conversions take an optional l/q suffix)
+            if res == name or (name.startswith('cvt') and res[:-1] == name and res[-1] in 'lq'):
+                R6.ok(iid, sample='%s stays %s in AT&T syntax' % (name, res), nontrivial=(len(R6.nontrivial) < 700))
+            else:
+                R6.violation(iid, 'att-sse:%s:%s' % (name, res), 'the MMX/SSE instruction %s with operands (%s) is rendered as %r in AT&T syntax; GNU as names it %s (a suffixed name is another instruction)'
+                             % (name, sig, res, name), where(arch, to_att.node), witness='f2 0f 10 00 renders movsl (%eax), %xmm0' if name == 'movsd' else None)
         args2 = [dict(a) for a in inst.operands]
         try:
             r2 = I.run(from_att, [[], res, args2, 'att_syntax'])
@@ -147,6 +155,7 @@ def run(ctx, report):
 
 
 MUTANTS = [
+    ('movsd-mem-movsl', 'miasmx/arch/ia32_arch.py', "    if name == 'movsd' and args[0][x86_afs.size] != 'xmm' \\\n                       and args[1][x86_afs.size] != 'xmm':", "    if name == 'movsd' and not (args[0][x86_afs.size] == 'xmm'\n                            and args[1][x86_afs.size] == 'xmm'):", 'C09.D6'),
     ('deref3-overwrite', 'miasmx/arch/ia32_att.py', "    t[0][reg] = t[6] + t[0].get(reg, 0)", "    t[0][reg] = t[6]", 'C09.D5'),
     ('no-lea', 'miasmx/arch/ia32_arch.py', "        'lea', 'mov', 'xchg', 'push', 'pop',", "        'mov', 'xchg', 'push', 'pop',", 'C09.D1'),
     ('ptr-w-u32', 'miasmx/arch/ia32_arch.py', "            'w': x86_afs.u16,\n            'l': x86_afs.u32, },\n        'lea',", "            'w': x86_afs.u32,\n            'l': x86_afs.u32, },\n        'lea',", 'C09.D'),
